@@ -611,7 +611,8 @@ static void run_c17() {
     g_sm = new BigDfa();
     static const unsigned char alpha_full[] = {'a', 'b', '2', '\\', 'x', 'F', '[', ']', '^', '-', '(', ')', '*', '+', '?', '{', '}', '|', '.', 0x01, 0x80};
     static const unsigned char alpha_meta[] = {'a', '\\', '[', ']', '(', ')', '*', '{', '}', '|', '2'};
-    std::string alphabet = cfg.pool == 1 ? std::string((const char*)alpha_meta, sizeof alpha_meta) : std::string((const char*)alpha_full, sizeof alpha_full);
+    static const unsigned char alpha_set[] = {'a', '[', ']', '-', '^', '\\', 0x01, 0x7f, 'x', '2'};
+    std::string alphabet = cfg.pool == 1 ? std::string((const char*)alpha_meta, sizeof alpha_meta) : cfg.pool == 2 ? std::string((const char*)alpha_set, sizeof alpha_set) : std::string((const char*)alpha_full, sizeof alpha_full);
     std::vector<int> idx(cfg.maxlen, 0);
     long count = 0;
     for (int len = 1; len <= cfg.maxlen; ++len) {
